@@ -34,6 +34,10 @@ def main():
         if replay is not None:
             rc = mod.replay(replay)
             sys.exit(rc)
+        import glob
+
+        for f in glob.glob(os.path.join(vlib.REPLAYS, "%s-*.json" % pid)):
+            os.remove(f)
         if not a.no_lean:
             vlib.prove(res, pid, thorough=(a.tier == "thorough"))
         mod.run(res, a.tier)
